@@ -22,6 +22,10 @@ pub enum CEv {
     SetNear(i8),
     /// set(kind, value)
     SetKind(u8, f32),
+    /// set(this kind, the *same number* as the current command): only the kind changes
+    SetKindOnly(u8),
+    /// the followed command getter now returns (this kind, the same number as the current command)
+    FollowKindOnly(u8),
     /// the followed command getter now returns this command / nothing
     Follow(u8, f32),
     FollowNone,
@@ -104,6 +108,13 @@ fn run_real(s: &Scenario, events: &[CEv], times: &[i64]) -> (Vec<Obs>, Vec<Optio
             CEv::SetKind(k, v) => {
                 cur = Command::new(pd(*k), *v);
                 pid.set(cur).expect("set is infallible");
+            }
+            CEv::SetKindOnly(k) => {
+                cur = Command::new(pd(*k), f32::from(cur));
+                pid.set(cur).expect("set is infallible");
+            }
+            CEv::FollowKindOnly(k) => {
+                followed.borrow_mut().cur = Ok(Some(Datum::new(Time(times[i]), Command::new(pd(*k), f32::from(cur)))));
             }
             CEv::Follow(k, v) => {
                 followed.borrow_mut().cur = Ok(Some(Datum::new(Time(times[i]), Command::new(pd(*k), *v))));
@@ -188,6 +199,8 @@ pub fn check(s: &Scenario) -> CheckResult {
             CEv::SetValue(v) => set_cmd((cmd.0, *v), &mut cmd, &mut seg, &mut err, &mut samples_since_change),
             CEv::SetNear(k) => set_cmd((cmd.0, gen::near(cmd.1, *k as i32)), &mut cmd, &mut seg, &mut err, &mut samples_since_change),
             CEv::SetKind(k, v) => set_cmd((*k % 3, *v), &mut cmd, &mut seg, &mut err, &mut samples_since_change),
+            CEv::SetKindOnly(k) => set_cmd((*k % 3, cmd.1), &mut cmd, &mut seg, &mut err, &mut samples_since_change),
+            CEv::FollowKindOnly(k) => followed = Some((*k % 3, cmd.1)),
             CEv::Follow(k, v) => followed = Some((*k % 3, *v)),
             CEv::FollowNone => followed = None,
             CEv::A => {
@@ -277,7 +290,7 @@ pub fn check(s: &Scenario) -> CheckResult {
             }
         }
     }
-    let kinds: Vec<u8> = s.events.iter().map(|e| match e { CEv::P(..) => 0, CEv::A => 1, CEv::E(_) => 2, CEv::SetSame => 3, CEv::SetValue(_) => 4, CEv::SetNear(_) => 12, CEv::SetKind(k, _) => 5 + k % 3, CEv::Follow(k, _) => 8 + k % 3, CEv::FollowNone => 11 }).collect();
+    let kinds: Vec<u8> = s.events.iter().map(|e| match e { CEv::P(..) => 0, CEv::A => 1, CEv::E(_) => 2, CEv::SetSame => 3, CEv::SetValue(_) => 4, CEv::SetNear(_) => 12, CEv::SetKind(k, _) => 5 + k % 3, CEv::Follow(k, _) => 8 + k % 3, CEv::FollowNone => 11, CEv::SetKindOnly(k) => 13 + k % 3, CEv::FollowKindOnly(k) => 16 + k % 3 }).collect();
     let nontrivial = longest_integrating_seg >= 4 || change_then_three;
     Ok(CaseInfo::new(nontrivial, hash_of(&(kinds, s.cmd_kind % 3, s.follow, s.k.map(f32::to_bits))))
         .class_if(longest_integrating_seg >= 4, "velocity/acceleration segment >= 4 samples")
@@ -294,6 +307,8 @@ fn cev() -> BoxedStrategy<CEv> {
         1 => gen::moderate().prop_map(CEv::SetValue),
         1 => (-2i8..=2).prop_map(CEv::SetNear),
         1 => (0u8..3, gen::moderate()).prop_map(|(k, v)| CEv::SetKind(k, v)),
+        1 => (0u8..3).prop_map(CEv::SetKindOnly),
+        1 => (0u8..3).prop_map(CEv::FollowKindOnly),
         1 => (0u8..3, gen::moderate()).prop_map(|(k, v)| CEv::Follow(k, v)),
         1 => Just(CEv::FollowNone),
     ]
